@@ -20,6 +20,15 @@ Spec == Init /\ [][Next]_vars
 
 Emit == PrintT(<<"CASE", ToJson([a |-> a, b |-> b, astr |-> TypeStr(a), aname |-> BaseName(a), compat |-> Compatible(a, b)])>>)
 
+\* the kind table, printed once (from the initial state whose two types are the least of the universe)
+KindRows == [k \in Kinds |-> [leaf |-> IsLeafKind(k), abstract |-> IsAbstractKind(k), composite |-> IsCompositeKind(k), input |-> IsInputKind(k)]]
+EmitKinds == (a = b /\ a.k = "named" /\ ~a.nn) => PrintT(<<"KINDS", ToJson([name |-> a.name, rows |-> KindRows])>>)
+\* every kind is input or output, only leaves are both, abstract kinds are composite
+KindLaws == \A k \in Kinds : /\ (IsInputKind(k) \/ IsOutputKind(k))
+                              /\ ((IsInputKind(k) /\ IsOutputKind(k)) <=> IsLeafKind(k))
+                              /\ (IsAbstractKind(k) => IsCompositeKind(k))
+                              /\ (IsCompositeKind(k) => IsOutputKind(k) /\ ~IsInputKind(k))
+
 \* laws
 TwoDefinitionsAgree == Compatible(a, b) = CompatibleByCases(a, b)
 Reflexive     == Compatible(a, a)
